@@ -151,6 +151,15 @@ def tensor_vec(mp):
     return np.asarray(mp.todense())
 
 
+def real_if_negligible(got, want):
+    """`expectation` documents "returns a float if the imaginary part is negligible" and decides with np.isclose(imag, 0), i.e.
+    |imag| <= 1e-8 ABSOLUTE: a float result is compared with the real part of the reference whenever the reference's
+    imaginary part is within that documented rule (matters for small amplitudes)."""
+    if not np.iscomplexobj(got) and abs(np.imag(want)) <= 1e-8:
+        return complex(got), complex(np.real(want))
+    return complex(got), complex(want)
+
+
 def expect_ref(mp, O, bra=None):
     t = tensor_vec(mp)
     b = t if bra is None else tensor_vec(bra)
@@ -196,13 +205,13 @@ def run_case(ctx):
         sc = max(float(np.linalg.norm(tensor_vec(psi)) ** 2 * np.linalg.norm(d)), 1e-300)
         got = ctx.lib(psi.expectation, mpo, what="expectation")
         ctx.count("oracle")
-        ctx.close(complex(got), complex(expect_ref(psi, d)), 1e-10, "expectation|mismatch", scale=sc)
+        ctx.close(*real_if_negligible(got, expect_ref(psi, d)), 1e-10, "expectation|mismatch", scale=sc)
         if other is not None:
             ctx.cls("bra!=ket")
             got = ctx.lib(psi.expectation, mpo, other.conj(), what="expectation(bra)")
             sc2 = max(float(np.linalg.norm(tensor_vec(psi)) * np.linalg.norm(tensor_vec(other)) * np.linalg.norm(d)), 1e-300)
             ctx.count("oracle")
-            ctx.close(complex(got), complex(expect_ref(psi, d, other)), 1e-10, "transition-amplitude|mismatch", scale=sc2)
+            ctx.close(*real_if_negligible(got, expect_ref(psi, d, other)), 1e-10, "transition-amplitude|mismatch", scale=sc2)
     if other is not None and ops and psi.is_mps:
         # the correlation-function pair object: <bra| O |ket> of the REPRESENTED states (prefactors included), O optional
         from renormalizer.mps.mps import BraKetPair
